@@ -324,6 +324,29 @@ def _api_aliases(crate_jsons):
     return sorted(set(out), key=lambda x: -len(x[0]))
 
 
+BUILDER_SPAWN = ("std::thread::builder::Builder::spawn", "std::thread::Builder::spawn")
+
+
+def _normalise_calls(j):
+    """`thread::Builder::new().name(n).spawn(f)` starts a thread exactly as `thread::spawn(f)` does (the result is
+    an io::Result around the same JoinHandle): the call is presented to the rules as the latter, without the
+    builder argument.  The `?`/match on its result is ordinary control flow."""
+    for f in j.get("fns", []):
+        for b in f.get("blocks", []):
+            t = b.get("term") or {}
+            if t.get("k") != "call":
+                continue
+            fn_ = t.get("fn") or {}
+            if (fn_.get("orig") in BUILDER_SPAWN or fn_.get("path") in BUILDER_SPAWN) and len(t.get("args", [])) == 2:
+                fn_["orig_builder"] = fn_.get("orig")
+                fn_["orig"] = "std::thread::functions::spawn"
+                fn_["path"] = "std::thread::functions::spawn"
+                t["args"] = t["args"][1:]
+                if t.get("arg_tys"):
+                    t["arg_tys"] = t["arg_tys"][1:]
+                t["spawn_via_builder"] = True
+
+
 def load(cfg="A"):
     if cfg in _loaded:
         return _loaded[cfg]
@@ -340,6 +363,7 @@ def load(cfg="A"):
         for cand, canon in alias:
             t = re.sub(re.escape(cand) + r"(?![A-Za-z0-9_])", canon, t)
         j = json.loads(t)
+        _normalise_calls(j)
         crates[j["crate"]] = j
     fx = Facts(cfg, crates)
     with open(os.path.join(d, "OK")) as f:
